@@ -130,4 +130,89 @@ pub mod c07 {
     pub fn q_field_named_width() {
         field_entry(true);
     }
+
+    /// Call sites (added after seeded change C07_r7A): every length-prefixed object kind the crate
+    /// emits, small bodies with symbolic contents; the PkgLength found after the opcode must decode to
+    /// the number of bytes from its own first byte to the end of the object and be one byte wide
+    /// (all totals here are <= 63). Ties the public constructors to the encoder decided above;
+    /// `BufferData` at 0..=3 bytes is where the size operand changes width (ZeroOp/OneOp/BytePrefix).
+    pub mod sites {
+        use super::*;
+        use acpi_tables::aml::*;
+        type B3 = Blob<3>;
+
+        fn closes<const N: usize>(r: &Rec<N>, oplen: usize) {
+            let (pl, pn, fmt) = decode_pkglen(&r.buf, oplen);
+            verdicts! {
+                "C07: recorder large enough": r.fits(),
+                "C07: call site: PkgLength lead-byte format": fmt,
+                "C07: call site: PkgLength decodes to the bytes from its own first byte to the end of the object": oplen + pl == r.len,
+                "C07: call site: shortest encoding (one byte for totals <= 63)": pn == 1,
+            }
+            kani::cover!(true, "REACHED");
+        }
+
+        macro_rules! site {
+            ($name:ident, $unw:expr, $oplen:expr, |$a:ident, $b:ident, $p:ident| $obj:expr) => {
+                #[kani::proof]
+                #[kani::unwind($unw)]
+                pub fn $name() {
+                    let $a = B3::any_len(3);
+                    let $b = B3::any_len(2);
+                    let ($p, _root, _segs) = sym_path_r::<1>(false);
+                    let _ = (&$a, &$b, &$p);
+                    let r: Rec<40> = Rec::of(&$obj);
+                    closes(&r, $oplen);
+                }
+            };
+        }
+        site!(q_site_scope_0, 16, 1, |a, b, p| Scope::new(p, vec![]));
+        site!(q_site_scope_2, 16, 1, |a, b, p| Scope::new(p, vec![&a, &b]));
+        site!(q_site_device_0, 16, 2, |a, b, p| Device::new(p, vec![]));
+        site!(q_site_device_2, 16, 2, |a, b, p| Device::new(p, vec![&a, &b]));
+        site!(q_site_method_0, 16, 1, |a, b, p| Method::new(p, 2, false, vec![]));
+        site!(q_site_method_2, 16, 1, |a, b, p| Method::new(p, 2, true, vec![&a, &b]));
+        site!(q_site_power_0, 16, 2, |a, b, p| PowerResource::new(p, 1, 2, vec![]));
+        site!(q_site_power_2, 16, 2, |a, b, p| PowerResource::new(p, 1, 2, vec![&a, &b]));
+        site!(q_site_if_0, 16, 1, |a, b, p| If::new(&a, vec![]));
+        site!(q_site_if_1, 16, 1, |a, b, p| If::new(&a, vec![&b]));
+        site!(q_site_else_0, 16, 1, |a, b, p| Else::new(vec![]));
+        site!(q_site_else_2, 16, 1, |a, b, p| Else::new(vec![&a, &b]));
+        site!(q_site_while_0, 16, 1, |a, b, p| While::new(&a, vec![]));
+        site!(q_site_while_1, 16, 1, |a, b, p| While::new(&a, vec![&b]));
+        site!(q_site_package_0, 16, 1, |a, b, p| Package::new(vec![]));
+        site!(q_site_package_2, 16, 1, |a, b, p| Package::new(vec![&a, &b]));
+        site!(q_site_varpackage, 16, 1, |a, b, p| VarPackageTerm::new(&a));
+        site!(q_site_bufferterm, 16, 1, |a, b, p| BufferTerm::new(&a));
+        site!(q_site_template_0, 16, 1, |a, b, p| ResourceTemplate::new(vec![]));
+        site!(q_site_template_2, 16, 1, |a, b, p| ResourceTemplate::new(vec![&a, &b]));
+
+        macro_rules! bufdata_site {
+            ($name:ident, $n:expr) => {
+                #[kani::proof]
+                #[kani::unwind(16)]
+                pub fn $name() {
+                    let data: [u8; $n] = kani::any();
+                    let r: Rec<40> = Rec::of(&BufferData::new(data.to_vec()));
+                    closes(&r, 1);
+                }
+            };
+        }
+        bufdata_site!(q_site_bufferdata_0, 0);
+        bufdata_site!(q_site_bufferdata_1, 1);
+        bufdata_site!(q_site_bufferdata_2, 2);
+        bufdata_site!(q_site_bufferdata_3, 3);
+
+        #[kani::proof]
+        #[kani::unwind(16)]
+        pub fn q_site_packagebuilder() {
+            let a = B3::any_len(3);
+            let b = B3::any_len(2);
+            let mut pb = PackageBuilder::new();
+            pb.add_element(&a);
+            pb.add_element(&b);
+            let r: Rec<40> = Rec::of(&pb);
+            closes(&r, 1);
+        }
+    }
 }
